@@ -19,6 +19,11 @@ type c06Case struct {
 	Kind, Ctx, Depth, Expect string
 }
 
+// c06Err is an error type whose Error method reads a field (a nil *c06Err panics when used)
+type c06Err struct{ msg string }
+
+func (e *c06Err) Error() string { return "c06Err: " + e.msg }
+
 func c06Fail(kind string) string {
 	switch kind {
 	case "div0":
@@ -37,6 +42,14 @@ func c06Fail(kind string) string {
 		return "q := (func(x) { return x })()"
 	case "gopanic":
 		return "q := gopanic(\"boom\")"
+	case "gopanic-nilerr":
+		return "q := gopanic(\"nilerr\")"
+	case "gopanic-nilrte":
+		return "q := gopanic(\"nilrte\")"
+	case "gopanic-ugoerr":
+		return "q := gopanic(\"ugoerr\")"
+	case "gopanic-struct":
+		return "q := gopanic(\"struct\")"
 	case "gopanic-nil":
 		return "q := gopanic(undefined)"
 	case "throw":
@@ -133,6 +146,22 @@ func init() {
 			if len(a) > 0 && a[0] == ugo.Undefined {
 				var m map[string]int
 				m["x"] = 1 // runtime error: assignment to entry in nil map
+			}
+			if len(a) > 0 {
+				// panic values of other kinds: error values whose methods cannot be used (a nil pointer in an
+				// error interface), a runtime error of the VM's own type, a value that is no error at all
+				switch a[0].String() {
+				case "nilerr":
+					var e *c06Err
+					panic(error(e))
+				case "nilrte":
+					var e *ugo.RuntimeError
+					panic(error(e))
+				case "ugoerr":
+					panic(&ugo.Error{Name: "HostError", Message: "from host"})
+				case "struct":
+					panic(struct{ A int }{7})
+				}
 			}
 			panic(fmt.Sprint("go panic: ", a))
 		}}
